@@ -93,6 +93,10 @@ enum Edit {
     Field(jw::Path, Mutn),
     SwapNext(jw::Path),
     InsertCell(usize),
+    /// a second cell with the SAME address as cell i and another value, right after it
+    RepeatAddress(usize),
+    /// headers i and i+1 exchanged
+    TransposeHeaders(usize),
     DeleteCell(usize),
     TransposeCells(usize),
     InsertHeader(usize),
@@ -122,6 +126,7 @@ fn edits(base: &Value) -> Vec<Edit> {
     }
     for i in 0..n_cells {
         out.push(Edit::DeleteCell(i));
+        out.push(Edit::RepeatAddress(i));
         if i + 1 < n_cells {
             out.push(Edit::TransposeCells(i));
         }
@@ -132,6 +137,9 @@ fn edits(base: &Value) -> Vec<Edit> {
     }
     for i in 0..n_h {
         out.push(Edit::DeleteHeader(i));
+        if i + 1 < n_h {
+            out.push(Edit::TransposeHeaders(i));
+        }
     }
     if build_stone6() {
         out.push(Edit::Friendly(1));
@@ -168,6 +176,18 @@ fn apply_edit(base: &Value, nf: &Felt, e: &Edit) -> Option<(Value, Felt)> {
         Edit::DeleteCell(i) => {
             v["main_page"].as_array_mut()?.remove(*i);
         }
+        Edit::RepeatAddress(i) => {
+            let a = v["main_page"].as_array_mut()?;
+            let addr = a.get(*i)?["address"].clone();
+            a.insert(*i + 1, json!({"address": addr, "value": "0x4321"}));
+        }
+        Edit::TransposeHeaders(i) => {
+            let a = v["continuous_page_headers"].as_array_mut()?;
+            if *i + 1 >= a.len() || a[*i] == a[*i + 1] {
+                return None;
+            }
+            a.swap(*i, *i + 1);
+        }
         Edit::TransposeCells(i) => {
             let a = v["main_page"].as_array_mut()?;
             if a[*i] == a[*i + 1] {
@@ -195,6 +215,8 @@ fn edit_class(e: &Edit) -> String {
         Edit::Field(p, m) => format!("{}:{}", jw::path_class(p), m.kind()),
         Edit::SwapNext(p) => format!("{}:swap-next", jw::path_class(p)),
         Edit::InsertCell(_) => "main_page:insert".into(),
+        Edit::RepeatAddress(_) => "main_page:repeat-address".into(),
+        Edit::TransposeHeaders(_) => "continuous_page_headers:transpose".into(),
         Edit::DeleteCell(_) => "main_page:delete".into(),
         Edit::TransposeCells(_) => "main_page:transpose".into(),
         Edit::InsertHeader(_) => "continuous_page_headers:insert".into(),
